@@ -620,7 +620,7 @@ class ExcelModel:
 
         for k, v in res.items():
             if k in dsp.data_nodes and k not in dsp.default_values:
-                dsp.set_default_value(k, v.value)
+                dsp.set_default_value(k, getattr(v, 'value', v))
 
         func = self.compile_class(
             dsp=dsp,
